@@ -43,6 +43,8 @@ type Taint struct {
 	Key    string `json:"key"`
 	Value  string `json:"value"`
 	Effect string `json:"effect"`
+	// TimeAdded: the taint carries a timeAdded stamp (as the node lifecycle controller sets on NoExecute taints).
+	TimeAdded bool `json:"timeAdded"`
 }
 
 // Port is a host port. IP "" = 0.0.0.0; Proto TCP|UDP.
@@ -205,6 +207,9 @@ type Node struct {
 	CSI       []CSILimit        `json:"csi"`
 	// NoHost: the Node object lacks the kubernetes.io/hostname label (C18: the kubelet has not set it yet / it was removed)
 	NoHost bool `json:"noHost,omitempty"`
+	// NodeTaints are taints present on the Node object only (acquired after launch: node.kubernetes.io/not-ready,
+	// unreachable, readiness.k8s.io/* rules, ...), not in the NodeClaim's spec.  Ignored for claimonly.
+	NodeTaints []Taint `json:"nodeTaints"`
 }
 
 // DS is a daemonset (pod template).
@@ -448,6 +453,7 @@ func (s *Scenario) Normalise() {
 	for i := range s.Nodes {
 		n := &s.Nodes[i]
 		n.Labels, n.Taints, n.Startup = nzM(n.Labels), nzTaints(n.Taints), nzTaints(n.Startup)
+		n.NodeTaints = nzTaints(n.NodeTaints)
 		if n.CSI == nil {
 			n.CSI = []CSILimit{}
 		}
